@@ -737,8 +737,12 @@ class VerifyingBase(LookupBaseFallback):  # noqa F821
             verify_generations = [r._generation for r in verify_ro]
         except BaseException:
             # Nothing we have cached may outlive a change, even one we
-            # could not take a new snapshot for.
+            # could not take a new snapshot for; without a snapshot the
+            # next lookup tries again (like the C version, which forgets
+            # the old snapshots here).
             LookupBaseFallback.changed(self, originally_changed)  # noqa F821
+            self._verify_ro = ()
+            self._verify_generations = None
             raise
         LookupBaseFallback.changed(self, originally_changed)  # noqa F821
         self._verify_ro = verify_ro
